@@ -43,6 +43,10 @@ def check_one(rule_name, ra, robj, parent, child_nodes, s, c, rank, robj_used=No
         except Exception:  # noqa  (validation itself is C01-C04's subject)
             pass
         try:
+            robj_used.validate_rule(parent)           # fail-fast: may stop part-way
+        except Exception:  # noqa
+            pass
+        try:
             idx2, exc2 = robj_used.child_insert_index(parent, child_nodes[c]), None
         except Exception as e:  # noqa
             idx2, exc2 = None, e
@@ -78,6 +82,19 @@ def check_one(rule_name, ra, robj, parent, child_nodes, s, c, rank, robj_used=No
             probs.append(problem("validity_not_restored", case,
                                  expected={"valid_positions": good},
                                  observed={"index": idx, "result": list(s[:idx] + (c,) + s[idx:])}, rule=rule_name))
+        elif robj_used is not None and ra.strict.accepts(s[:idx] + (c,) + s[idx:]):
+            # ... and the Rule object that was asked (it validated the incomplete parent before) accepts the parent once
+            # the child is put where it said
+            parent.children = [child_nodes[a] for a in s[:idx] + (c,) + s[idx:]]
+            try:
+                robj_used.validate_rule(parent)
+                again = None
+            except Exception as e:  # noqa
+                again = e
+            parent.children = [child_nodes[a] for a in s]
+            if again is not None:
+                probs.append(problem("validity_not_restored", dict(case, judged_by="the Rule object that suggested the index"),
+                                     expected="accepted", observed=repr(again), rule=rule_name))
     return probs, label
 
 
@@ -208,6 +225,23 @@ def refusal_work(rule_name):
     parent, direct = ruleinfo.parent_for(rule_name, node_id="P")
     robj = mrule.Rule(rule_name)
     if parent.name == "metadata":
+        # (which names a metadata element "allows" is outside the table's grammar; the two queries must at least agree)
+        for x in ("dataset", "title", "zzForeignElement"):
+            acc.count("refusals")
+            try:
+                allowed = robj.is_allowed_child(x)
+            except Exception as e:  # noqa
+                allowed = repr(e)
+            try:
+                robj.child_insert_index(parent, Node(x, id="cand"))
+                placed = True
+            except ChildNotAllowedError:
+                placed = False
+            except Exception as e:  # noqa
+                placed = repr(e)
+            if allowed is not placed:
+                acc.add_problem(problem("is_allowed_child_wrong", {"rule": rule_name, "seq": [], "refused_candidate": x},
+                                        expected={"child_insert_index_places_it": placed}, observed={"is_allowed_child": allowed}, rule=rule_name))
         return acc
     seqs = [()]
     w = ruleinfo.shortest_accepted(ra)
